@@ -38,7 +38,12 @@ EXTRA_BY_PROP = {
     "C13": ["src/funtracks/import_export/magic_imread.py"],
     "C12": ["src/funtracks/import_export/magic_imread.py", "src/funtracks/import_export/_import_segmentation.py"],
     "C14": ["src/funtracks/import_export/magic_imread.py", "src/funtracks/import_export/_validation.py",
-            "src/funtracks/data_model/tracks.py", "src/funtracks/data_model/solution_tracks.py"],
+            "src/funtracks/data_model/tracks.py", "src/funtracks/data_model/solution_tracks.py",
+            "src/funtracks/features/_node_features.py", "src/funtracks/features/_edge_features.py",
+            "src/funtracks/features/_feature.py", "src/funtracks/actions/add_delete_node.py",
+            "src/funtracks/actions/add_delete_edge.py"],
+    "C08": ["src/funtracks/annotators/_regionprops_extended.py"],
+    "C10": ["src/funtracks/annotators/_regionprops_extended.py"],
     "C15": ["src/funtracks/data_model/solution_tracks.py"],
     "C16": ["src/funtracks/features/_feature_dict.py", "src/funtracks/import_export/_utils.py"],
 }
